@@ -21,7 +21,7 @@ META = {
                      "64/63, n-1, character widths, fragment unit and clamp) is present exactly in the writer and reader "
                      "function it belongs to, and that no off-by-one neighbour of such a value occurs. Does not decide "
                      "bit-exactness of composed encodings.", ref="4, 5/C02"),
-    "C03": dict(tech="static analysis: sibling state-machine agreement over MIR aggregates and field writes",
+    "C03": dict(tech="static analysis: sibling state-machine agreement over MIR aggregates and field writes, must-pass-through of the root-component countdown, path-resolved conditions of the presence-bit accesses",
                 text="Decides agreement of the writer's and reader's presence-bitmap state machines (Scope construction, "
                      "per-variant cursor discipline, optional notion, error-site census). Not the bit positions for every shape.",
                 ref="5/C03"),
@@ -34,11 +34,11 @@ META = {
                 text="Decides the dataflow facts cross-version decoding needs: the transmitted addition count bounds the "
                      "presence range and is retained, open-type skip uses the position captured before the content, both "
                      "optional wrappers wrap additions as open types. Not the decoded values for schema pairs.", ref="5/C05"),
-    "C06": dict(tech="static analysis: must-check-before-success path rule over MIR CFGs (no Ok return around the range decision); X.680 alphabet table decided by interval partitioning of Charset::is_valid",
+    "C06": dict(tech="static analysis: must-check-before-success path rule over MIR CFGs (no Ok return around the range decision), path-resolved refusal (comparison outcomes and the extensible parameter along every path to a success return or emitting call); X.680 alphabet table decided by interval partitioning of Charset::is_valid",
                 text="Decides that on every path to an Ok return of an encoding primitive / kind the value has been compared "
                      "with each present bound and every emitting call is dominated by that comparison; error vocabulary census.",
                 ref="5/C06"),
-    "C07": dict(tech="static analysis: field-provenance of copy constructors over MIR aggregates; dropped-parse census; sentinel agreement of the SIZE parser",
+    "C07": dict(tech="static analysis: field-provenance of copy constructors over MIR aggregates; dropped-parse census; sentinel agreement of the SIZE parser; name-match-is-an-alternative path rule of the import lookup",
                 text="Decides that the resolve/copy stages of the front end construct every field of every model struct from the "
                      "same-named field of the source (no dropped, swapped or defaulted field). Not the token-consuming parser.",
                 ref="5/C07"),
@@ -47,16 +47,16 @@ META = {
                      "for the printed word builds the same variant; that into_asn inverts definition_type_to_rust_type; and that each "
                      "printed bound / flag / count comes from the getter it names. Does not decide equality of the re-read model for "
                      "every argument shape.", ref="5/C08"),
-    "C09": dict(tech="static analysis: keyword table inclusion (syn const arrays), who-may-print rule, sibling agreement of the two type printers (MIR match arms)",
+    "C09": dict(tech="static analysis: keyword table inclusion (syn const arrays), who-may-print rule, sibling agreement of the two type printers (MIR match arms), once-only name mangling (flag and probe of every literal rendering, closure parameters resolved through own calls)",
                 text="Decides that the generator's keyword escape table covers every Rust keyword that can be an ASN.1 identifier "
                      "and that field names are printed through the escaping helper.", ref="5/C09"),
-    "C10": dict(tech="static analysis: sibling boundary/skeleton agreement of PackedWrite/PackedRead pairs, length-determinant discipline, parameter-taint to panic sinks, selector-bit agreement of writer and reader paths",
+    "C10": dict(tech="static analysis: sibling boundary/skeleton agreement of PackedWrite/PackedRead pairs, length-determinant discipline, parameter-taint to panic sinks, selector-bit agreement of writer and reader paths, loop-variance of the continuation-fragment destination",
                 text="Decides writer/reader agreement on every threshold and constraint argument of the 13 primitive pairs, the "
                      "fragment protocol (returned fragment size used / read size tested against 16K) and error-not-panic for "
                      "inadmissible arguments. Not the numeric bit pattern.", ref="5/C10"),
-    "C11": dict(tech="static analysis: dominance of bounds checks over accesses, sibling boundary agreement, cursor discipline over MIR",
+    "C11": dict(tech="static analysis: dominance of bounds checks over accesses, no panicking subtraction ahead of the checks, sibling boundary agreement, cursor discipline over MIR",
                 text="Decides the error-not-panic clause and the cursor/growth discipline of the bit-level primitives.", ref="5/C11"),
-    "C12": dict(tech="static analysis: lookup-provenance path rule, cast census, normalisation-twin table, Option-key equality guarded by is_some, normaliser provenance over MIR",
+    "C12": dict(tech="static analysis: lookup-provenance path rule, cast census, normalisation-twin table, Option-key equality guarded by is_some, name-match-is-an-alternative path rule of the module selection, normaliser and resolver field provenance over MIR",
                 text="Decides that value-reference resolution can only copy the looked-up literal or fail, uses no lossy cast, "
                      "and that literal-sensitive parse-time normalisation has a post-resolve twin.", ref="5/C12"),
     "C13": dict(tech="static analysis: event-before-event path rules on the tokenizer CFG (flush before separator events, consume only what was peeked, delimiter consumed where the nesting level changes)",
@@ -65,7 +65,7 @@ META = {
     "C14": dict(tech="static analysis: census and discharge of panic-capable sites reachable from the front-end entry points; recursion-descends rule on the call graph",
                 text="Decides that no panic-capable construct is reachable from tokenizer/parser/resolver/converters except "
                      "reviewed ones and that recursion descends structurally or consumes input.", ref="5/C14"),
-    "C15": dict(tech="static analysis: guard-constant/variant/cast table of the integer cascade, bound provenance, edge-cut reachability of the unsigned choice (MIR)",
+    "C15": dict(tech="static analysis: guard-constant/variant/cast table of the integer cascade, bound provenance and fallbacks of absent bounds, edge-cut reachability of the unsigned choice (MIR)",
                 text="Decides table consistency of the integer-type cascade (guard constant, constructed variant, cast width agree "
                      "and ascend; extensible -> 64 bit) and provenance of min/max. Not narrowest-type for all pairs.", ref="5/C15"),
     "C16": dict(tech="static analysis: enum declaration order + derived Ord, sort-key types, who-sorts / no-keyed-order rule, X.680 universal tag table",
